@@ -102,3 +102,47 @@ impl<'t> Worker<'t> {
         self.counter.as_ref().unwrap().compute_probs()
     }
 }
+
+#[cfg(feature = "verif")]
+impl<'t> Worker<'t> {
+    pub fn verif_top_nodes(&self) -> &[(usize, Node)] {
+        &self.top_nodes
+    }
+
+    pub fn verif_top_nodes_mut(&mut self) -> &mut Vec<(usize, Node)> {
+        &mut self.top_nodes
+    }
+
+    pub const fn verif_sent(&self) -> &Sentence {
+        &self.sent
+    }
+
+    pub fn verif_sent_mut(&mut self) -> &mut Sentence {
+        &mut self.sent
+    }
+
+    pub const fn verif_lattice(&self) -> &Lattice {
+        &self.lattice
+    }
+
+    pub fn verif_lattice_mut(&mut self) -> &mut Lattice {
+        &mut self.lattice
+    }
+
+    pub const fn verif_counter(&self) -> Option<&ConnIdCounter> {
+        self.counter.as_ref()
+    }
+
+    /// The body of `tokenize` with the connector type fixed by the caller.
+    pub fn verif_tokenize_with<C>(&mut self, connector: &C)
+    where
+        C: crate::dictionary::connector::ConnectorCost,
+    {
+        if self.sent.chars().is_empty() {
+            return;
+        }
+        self.tokenizer
+            .verif_build_lattice_inner(&self.sent, &mut self.lattice, connector);
+        self.lattice.append_top_nodes(&mut self.top_nodes);
+    }
+}
